@@ -108,6 +108,15 @@ CHECKS = {
         note="Trusted: the scripted connection mirrors websockets' contract; a second connection_ack is treated as outside the statement.",
         design="4/C13",
     ),
+    "C14": dict(
+        category="exploration",
+        technique="runtime monitoring: builder expressions produced by reflection over the generated builder modules; captured document validated and executed by graphql-core (resolvers record received arguments), shape compared with the expression, and each expression rebuilt after unrelated operations in the same process (history-freedom as a pair of executions)",
+        text="For seeded schemas generated with enable_custom_operations, 10-24 expression trees per schema (several top-level fields, sub-fields to depth 3, aliases, .on() "
+             "for union/interface members, arguments incl. explicit None) are built from the generated field objects; each captured document must validate against the "
+             "schema, have the expression's shape and GraphQL names, deliver the caller's argument values to the reference resolvers, omit None arguments, and be "
+             "identical when rebuilt after the other expressions were built and sent.",
+        note=GEN_NOTE + " The three listed defect mechanisms are switched on one at a time in separate cases so that the clean region is explored densely.",
+        design="4/C14"),
     "C15": dict(
         category="exploration",
         technique="runtime monitoring: differential observation of packages generated with plugin lists vs unplugged (requests in canonical print, acceptance, returned values, evaluated type hints, operation constants, bytes), with identity and marker plugins shipped by the harness to observe hook application order",
